@@ -79,3 +79,9 @@ FileFormat.vos FileFormat.vok FileFormat.required_vos: FileFormat.v Codec.vos
 FileFormatFacts.vo FileFormatFacts.glob FileFormatFacts.v.beautified FileFormatFacts.required_vo: FileFormatFacts.v Bytes.vo BytesFacts.vo Segment.vo Codec.vo CodecFacts.vo FileFormat.vo
 FileFormatFacts.vio: FileFormatFacts.v Bytes.vio BytesFacts.vio Segment.vio Codec.vio CodecFacts.vio FileFormat.vio
 FileFormatFacts.vos FileFormatFacts.vok FileFormatFacts.required_vos: FileFormatFacts.v Bytes.vos BytesFacts.vos Segment.vos Codec.vos CodecFacts.vos FileFormat.vos
+Locks.vo Locks.glob Locks.v.beautified Locks.required_vo: Locks.v 
+Locks.vio: Locks.v 
+Locks.vos Locks.vok Locks.required_vos: Locks.v 
+LocksFacts.vo LocksFacts.glob LocksFacts.v.beautified LocksFacts.required_vo: LocksFacts.v Locks.vo
+LocksFacts.vio: LocksFacts.v Locks.vio
+LocksFacts.vos LocksFacts.vok LocksFacts.required_vos: LocksFacts.v Locks.vos
